@@ -11,7 +11,7 @@ import contextlib
 from ..loop import PAUSE
 from ..runner import Outcome
 from ..tools import lib
-from .common import COMPONENTS_BASE, run_sim, new_sim, finish_outcome, enumerate_faults
+from .common import set_interrupts, COMPONENTS_BASE, run_sim, new_sim, finish_outcome, enumerate_faults
 
 PID = "C13"
 LEVEL = "fault_enumeration"
@@ -168,7 +168,7 @@ async def use(factory, prep, sim, log, injected, res):
 
 def one_side(prep, outcome, st, decorator, interrupts):
     sim = new_sim(st, interrupts=False)
-    sim.interrupt_den = interrupts
+    set_interrupts(sim, interrupts)
     log, res = [], []
     injected = [make_exc(outcome)]
     genfunc = make_genfunc(prep, sim, log, injected)
